@@ -19,6 +19,7 @@ Inductive op :=
 | OPremature                                 (* call proceed() whatever can_proceed says; the object is gone afterwards *)
 | OWriteHead (cap : N)
 | OWriteBody (input : bytes) (cap : N)      (* explicit input *)
+| OWriteSum (input : bytes) (cap : N)       (* like OWriteBody, output reported as a checksum *)
 | OWriteFrom (take_n cap : N)               (* next [take_n] bytes of the script's body *)
 | OSetBody (b : bytes)
 | ODirect (amount : N)
@@ -88,6 +89,7 @@ Definition parse_op (l : list tok) : option op :=
       else if is_w w "premature" then Some OPremature
       else if is_w w "write_head" then match args with [TN c] => Some (OWriteHead c) | _ => None end
       else if is_w w "write_body" then match args with [TH i; TN c] => Some (OWriteBody i c) | _ => None end
+      else if is_w w "write_sum" then match args with [TH i; TN c] => Some (OWriteSum i c) | _ => None end
       else if is_w w "write_from" then match args with [TN t; TN c] => Some (OWriteFrom t c) | _ => None end
       else if is_w w "body" then match args with [TH b] => Some (OSetBody b) | _ => None end
       else if is_w w "direct" then match args with [TN a] => Some (ODirect a) | _ => None end
@@ -275,13 +277,22 @@ Definition do_read (s : sstate) (f : inner) (win : bytes) (cap : N) (track : boo
   | Panic _ => (s, obs_panic)
   end.
 
-Definition do_write_body (s : sstate) (input : bytes) (cap : N) (track : bool) : sstate * list tok :=
+(** Position-sensitive checksum with additions only (Fletcher style, no modulus): cheap in the
+    extracted model. *)
+Definition checksum (b : bytes) : N :=
+  snd (fold_left (fun acc x => let s1 := fst acc + x in (s1, snd acc + s1)) b (7, 0)).
+
+Definition obs_written (sum : bool) (used : N) (out : bytes) : list tok :=
+  if sum then [w "ok"; TN used; TN (len out); TN (checksum out)]
+  else [w "ok"; TN used; TN (len out); TH out].
+
+Definition do_write_body (s : sstate) (input : bytes) (cap : N) (track sum : bool) : sstate * list tok :=
   match s_obj s with
   | ObFlow TSendBody f =>
       match send_body_write f input cap with
       | Ok (f', used, out) =>
           let s' := with_flow s TSendBody f' in
-          (if track then add_sent s' used else s', [w "ok"; TN used; TN (len out); TH out])
+          (if track then add_sent s' used else s', obs_written sum used out)
       | Err e => (s, obs_err e)
       | Panic _ => (s, obs_panic)
       end
@@ -289,7 +300,7 @@ Definition do_write_body (s : sstate) (input : bytes) (cap : N) (track : bool) :
       match call_write_body c input cap with
       | Ok (c', used, out) =>
           let s' := with_obj s (ObCall HWithBody c') in
-          (if track then add_sent s' used else s', [w "ok"; TN used; TN (len out); TH out])
+          (if track then add_sent s' used else s', obs_written sum used out)
       | Err e => (s, obs_err e)
       | Panic _ => (s, obs_panic)
       end
@@ -355,8 +366,9 @@ Definition step (s : sstate) (o : op) : sstate * list tok :=
       | Err e => (s, obs_err e)
       | Panic _ => (s, obs_panic)
       end
-  | OWriteBody input cap, _ => do_write_body s input cap false
-  | OWriteFrom t cap, _ => do_write_body s (take t (drop (s_sent s) (s_body s))) cap true
+  | OWriteBody input cap, _ => do_write_body s input cap false false
+  | OWriteSum input cap, _ => do_write_body s input cap false true
+  | OWriteFrom t cap, _ => do_write_body s (take t (drop (s_sent s) (s_body s))) cap true true
   | ODirect a, ObFlow TSendBody f => upd s TSendBody (send_body_direct f a) (fun x => x) (fun _ => [w "ok"])
   | OTry100, ObFlow TAwait100 f => do_try100 s f (window s) true
   | ORawTry100 b, ObFlow TAwait100 f => do_try100 s f b false
